@@ -45,7 +45,13 @@ func (s *stateMachine[V, H, A]) ProcessPrecommit(p *types.Precommit[H, A]) []act
 	}
 
 	if s.hasFuturePrecommitQuorum(p) {
-		return s.triggerSync(p)
+		// The precommit has been counted by the vote counter like any other accepted message, so
+		// it must reach the WAL as well: otherwise a restarted node lacks a vote that the running
+		// node uses when it arrives at that height.
+		return append(
+			[]actions.Action[V, H, A]{&actions.WriteWAL[V, H, A]{Entry: (*wal.Precommit[H, A])(p)}},
+			s.triggerSync(p)...,
+		)
 	}
 
 	return s.processMessage(p, (*wal.Precommit[H, A])(p))
